@@ -15,7 +15,7 @@ SET_RESULT = {"DP17.Pi"}
 SORTED_TABLE_SCHEMES = ["CJJ14.PiBas", "CJJ14.PiPack", "CJJ14.PiPtr", "CJJ14.Pi2Lev", "CT14.Pi", "ANSS16.Scheme3"]
 
 DB_CLASSES = ["tiny", "single-pow2", "pow2-edge", "block-edge", "many-singletons", "one-heavy", "shared-id",
-              "zero-bytes", "zipf"]
+              "zero-bytes", "zipf", "array-edge"]
 
 
 def default_config(scheme):
@@ -277,6 +277,16 @@ def list_lengths(rng, scheme, cfg, cls, cp, scale):
         cands = [x for x in cands if 1 <= x <= max(big * 4, 8)]
         k = rng.randint(1, 4)
         return [rng.choice(cands) for _ in range(k)]
+    if cls == "array-edge":
+        # the number of array entries / postings sits on a one-byte boundary (255, 256, 257): PiPtr counts identifier
+        # blocks of B entries (its pointers are ceil(log2 |A| / 8) bytes wide), the other schemes postings
+        target = rng.choice([255, 256, 256, 257])
+        k = rng.choice([1, 2, 3, rng.randint(1, 8)])
+        parts = partition(rng, target, k)
+        if scheme == "CJJ14.PiPtr":
+            B = cfg["param_B"]
+            return [p * B - rng.randrange(B) for p in parts]
+        return parts
     if cls == "many-singletons":
         return [1] * rng.randint(3, max(4, min(big, 40)))
     if cls == "one-heavy":
@@ -356,7 +366,9 @@ def db_from_lens(rng, scheme, cfg, lens, cls="profile", fix_config=True, kw_min=
             "lens": sorted((len(v) for v in db.values()), reverse=True)[:8], "aliased_lists": aliased}
     if scheme == "CGKO06.SSE2" and fix_config:
         files = len({i for v in db.values() for i in v})
-        cfg["param_n"] = files + rng.choice([0, 0, 3])
+        # param_n is an upper bound the user chooses: exact, a little slack, or a generous bound (which can cross a
+        # power of two of n + max and so select another PRP width than the exact count would)
+        cfg["param_n"] = files + rng.choice([0, 0, 3, files, 2 * files + 1, 40])
     if scheme == "CGKO06.SSE1" and fix_config:
         cfg["param_dictionary_size"] = rng.choice([len(db), len(db) + 5, 64]) if "param_dictionary_size_fixed" not in cfg \
             else cfg["param_dictionary_size"]
